@@ -158,6 +158,13 @@ func w2Gen(r *rand.Rand, prop, tier string) *simrt.Case {
 		if prop == "C14" && r.IntN(3) == 0 {
 			c.Program = append(c.Program, simrt.Op{Actor: 200, Kind: "sleep", A: int64(5 + r.IntN(2000))}, simrt.Op{Actor: 200, Kind: "failover", B: 1})
 		}
+		if prop == "C12" && r.IntN(3) == 0 {
+			// the coordinator is replaced while a generation's members are still collecting their
+			// assignments: those who sync after the switch get what the store holds
+			for i := 0; i < 1+r.IntN(2); i++ {
+				c.Program = append(c.Program, simrt.Op{Actor: 201, Kind: "sleep", A: int64(5 + r.IntN(1500))}, simrt.Op{Actor: 201, Kind: "failover", B: int64(r.IntN(2))})
+			}
+		}
 		if r.IntN(4) == 0 {
 			c.Faults = append(c.Faults, simrt.Fault{Kind: "store.err", Op: "store.PutConsumerGroup", Nth: r.IntN(10)})
 		}
